@@ -807,7 +807,21 @@ def _install_probes():
     class VerifThetaProbe(Scorer):
         """records the collection the scoring command hands to the scorer, read three ways, and probes the refusals on THAT object"""
 
-        def score(self, plates, distance_matrix, samples, rng, progress_bar):
+        def score(self, *args, **kwargs):
+            # checklist item 21: any positional / keyword form; the arguments are identified by NAME through the base class's signature,
+            # and by TYPE when that fails -- a call the probe cannot interpret is recorded (tie), never raised
+            import inspect
+            from batchie.core import ThetaHolder as _TH
+            try:
+                b = inspect.signature(Scorer.score).bind(self, *args, **kwargs).arguments
+                plates, samples = b["plates"], b["samples"]
+            except Exception as e:
+                vals = list(args) + list(kwargs.values())
+                plates = next((v for v in vals if isinstance(v, dict)), None)
+                samples = next((v for v in vals if isinstance(v, _TH)), None)
+                if plates is None or samples is None:
+                    PROBE.append({"wrapper_error": err_tok(e) + ": " + str(e)[:200]})
+                    return {k: 0.0 for k in (plates or {})}
             n = len(samples.thetas)
             rec = {"n_thetas": int(samples.n_thetas), "thetas": [full_sample(t) for t in samples.thetas], "iter": [full_sample(t) for t in samples]}
             via, refused = [], {}
@@ -835,11 +849,36 @@ def _install_probes():
     class VerifPairProbe(DistanceMetric):
         """records the two prediction vectors of every call; the returned distance is the call number"""
 
-        def distance(self, a, b):
-            PROBE.append((np.asarray(a).tobytes(), np.asarray(b).tobytes()))
-            return float(len(PROBE))
+        def distance(self, *args, **kwargs):
+            import inspect
+            try:
+                bnd = inspect.signature(DistanceMetric.distance).bind(self, *args, **kwargs).arguments
+                arrs = [np.asarray(bnd["a"]), np.asarray(bnd["b"])]
+            except Exception:
+                arrs = [v for v in list(args) + list(kwargs.values()) if isinstance(v, np.ndarray)]
+            if len(arrs) < 2:
+                PROBE.append({"wrapper_error": "distance called with %d arrays" % len(arrs)})
+                return 0.0
+            PROBE.append((arrs[0].tobytes(), arrs[1].tobytes()))
+            return float(sum(1 for r in PROBE if isinstance(r, tuple)))
     sz.VerifThetaProbe = VerifThetaProbe
     dm.VerifPairProbe = VerifPairProbe
+
+
+def _in_harness(exc):
+    """the innermost frame of the exception is harness code (a probe / wrapper of ours), not the implementation"""
+    tb = exc.__traceback__
+    last = None
+    while tb is not None:
+        last = tb
+        tb = tb.tb_next
+    return last is not None and os.path.abspath(last.tb_frame.f_code.co_filename) == os.path.abspath(__file__)
+
+
+def wrapper_unexpected(res, case, where, detail):
+    """checklist item 21: a probe / recording wrapper of the harness met a call it cannot interpret: broken tie, never an oracle failure"""
+    res.count("wrapper.unexpected-call")
+    res.disagree("C10:recording-wrapper:" + where, {"kind": case.get("kind")}, "harness probe: " + str(detail)[:300], "a call form the probe can interpret")
 
 
 def run_entry_points(case, tmp, res, queue):
@@ -879,16 +918,21 @@ def run_entry_points(case, tmp, res, queue):
     del PROBE[:]
     sys.argv = ["calculate_scores", "--scorer", "VerifThetaProbe", "--data", sfn, "--thetas"] + [files[i] for i in order] + \
                ["--distance-matrix", dmf, "--output", out, "--seed", "0"] + vflag
+    harness_exc = False
     try:
         with quiet():
             calculate_scores.main()
         err = None
     except Exception as e:
         err = err_tok(e) + ": " + str(e)[:200]
+        harness_exc = _in_harness(e)
     finally:
         sys.argv = old
-    recs = [r for r in PROBE if isinstance(r, dict)]
-    if err is not None or not recs:
+    werr = [r["wrapper_error"] for r in PROBE if isinstance(r, dict) and "wrapper_error" in r]
+    recs = [r for r in PROBE if isinstance(r, dict) and "wrapper_error" not in r]
+    if werr or harness_exc:
+        wrapper_unexpected(res, case, "calculate_scores", werr[0] if werr else err)
+    elif err is not None or not recs:
         res.fail("calculate_scores on complete chain files does not reach the scorer", case, {"error": err, "file_order": order}, "the scorer is called",
                  signature="C10:entry-point:calculate_scores")
     else:
@@ -915,6 +959,7 @@ def run_entry_points(case, tmp, res, queue):
     del PROBE[:]
     sys.argv = ["calculate_distance_matrix", "--data", sfn, "--thetas"] + [files[i] for i in order] + \
                ["--distance-metric", "VerifPairProbe", "--n-chunks", "1", "--chunk-index", "0", "--output", out2] + vflag
+    harness_exc = False
     try:
         with quiet():
             calculate_distance_matrix.main()
@@ -922,10 +967,14 @@ def run_entry_points(case, tmp, res, queue):
         m = ChunkedDistanceMatrix.load(out2)
     except Exception as e:
         err = err_tok(e) + ": " + str(e)[:200]
+        harness_exc = _in_harness(e)
     finally:
         sys.argv = old
     calls = [r for r in PROBE if isinstance(r, tuple)]
-    if err is not None:
+    werr = [r["wrapper_error"] for r in PROBE if isinstance(r, dict) and "wrapper_error" in r]
+    if werr or harness_exc:
+        wrapper_unexpected(res, case, "calculate_distance_matrix", werr[0] if werr else err)
+    elif err is not None:
         res.fail("calculate_distance_matrix raises on complete chain files", case, {"error": err, "file_order": order}, "a distance matrix",
                  signature="C10:entry-point:calculate_distance_matrix")
     else:
@@ -937,7 +986,7 @@ def run_entry_points(case, tmp, res, queue):
             for k in range(cur):
                 i, j, v = int(m.row_indices[k]), int(m.col_indices[k]), float(m.values[k])
                 c = int(v) - 1
-                if not (0 <= c < len(calls)) or not (0 <= i < n and 0 <= j < n) or calls[c] != (exp_pred[i], exp_pred[j]):
+                if not (0 <= c < len(calls)) or not (0 <= i < n and 0 <= j < n) or calls[c] not in ((exp_pred[i], exp_pred[j]), (exp_pred[j], exp_pred[i])):      # the metric is symmetric by contract: either argument order
                     bad = "entry (%d, %d) of the written matrix was not computed from the predictions of samples %d and %d of the chain-major order" % (i, j, i, j)
                     break
         if bad:
